@@ -11,6 +11,10 @@ NOTE = ("Trusted: the symgo engine (fork of x/tools go/ssa/interp + SMT encoding
 
 # id -> (claim text, design ref)
 CLAIMS = {
+ "C38": ("For all inputs within the stated lengths (src/sets/strings of 0..3-4 arbitrary bytes): tr.Replace(src, New(from), New(to)) "
+         "equals a per-character reference (translate, squeeze, delete, complement, a-b ranges of width<=3); str.ToLower/ToUpper/"
+         "Capitalize/CmpLower/EqualCI/CommonPrefix/HasPrefix/BeforeFirst/AfterFirst/BeforeLast/AfterLast/Cut/Subi/Subn/Split/Join "
+         "equal their reference definitions; ascii classification/case/Digit for every byte and radix (solver verdict over all byte values).", "4 C38"),
  "C14": ("For every representable value: stor.Writer.Put1..5/PutStr/PutStrs and Reader.Get*, 5-byte small offsets, the mux zig-zag "
          "varint (all int64; length == varint.Len <= 10), size-prefixed strings/lists/records return exactly what was written and "
          "out-of-range Puts panic; records of 1..3 fields (empty, 1-2 arbitrary bytes, or fillers putting the total at the 0x100 "
